@@ -29,7 +29,7 @@ func NewHookServer(sim *Sim) *HookServer {
 	h.Server = httptest.NewServer(http.HandlerFunc(h.serve))
 	return h
 }
-func (h *HookServer) Close()               { h.Server.Close() }
+func (h *HookServer) Close()                  { h.Server.Close() }
 func (h *HookServer) URL(name string) *string { u := h.Server.URL + "/" + name; return &u }
 
 func (h *HookServer) serve(w http.ResponseWriter, r *http.Request) {
@@ -140,6 +140,8 @@ func canonDeep(req map[string]interface{}) map[string]interface{} {
 type RecQueue struct {
 	Pending []interface{}
 	Ops     []map[string]interface{}
+	// failures in a row per item, as the rate limiter of the real queue counts them (kept across Reset)
+	Requeues map[interface{}]int
 }
 
 func (q *RecQueue) rec(op string, item interface{}, extra ...interface{}) {
@@ -149,8 +151,8 @@ func (q *RecQueue) rec(op string, item interface{}, extra ...interface{}) {
 	}
 	q.Ops = append(q.Ops, m)
 }
-func (q *RecQueue) Add(item interface{})    { q.rec("add", item); q.Pending = append(q.Pending, item) }
-func (q *RecQueue) Len() int                { return len(q.Pending) }
+func (q *RecQueue) Add(item interface{}) { q.rec("add", item); q.Pending = append(q.Pending, item) }
+func (q *RecQueue) Len() int             { return len(q.Pending) }
 func (q *RecQueue) Get() (interface{}, bool) {
 	if len(q.Pending) == 0 {
 		return nil, true
@@ -159,14 +161,23 @@ func (q *RecQueue) Get() (interface{}, bool) {
 	q.Pending = q.Pending[1:]
 	return it, false
 }
-func (q *RecQueue) Done(item interface{})           { q.rec("done", item) }
-func (q *RecQueue) ShutDown()                       {}
-func (q *RecQueue) ShutDownWithDrain()              {}
-func (q *RecQueue) ShuttingDown() bool              { return false }
-func (q *RecQueue) AddRateLimited(item interface{}) { q.rec("addRateLimited", item) }
-func (q *RecQueue) Forget(item interface{})         { q.rec("forget", item) }
+func (q *RecQueue) Done(item interface{}) { q.rec("done", item) }
+func (q *RecQueue) ShutDown()             {}
+func (q *RecQueue) ShutDownWithDrain()    {}
+func (q *RecQueue) ShuttingDown() bool    { return false }
+func (q *RecQueue) AddRateLimited(item interface{}) {
+	q.rec("addRateLimited", item)
+	if q.Requeues == nil {
+		q.Requeues = map[interface{}]int{}
+	}
+	q.Requeues[item]++
+}
+func (q *RecQueue) Forget(item interface{}) {
+	q.rec("forget", item)
+	delete(q.Requeues, item)
+}
 func (q *RecQueue) AddAfter(item interface{}, d time.Duration) {
 	q.rec("addAfter", item, int64(d/time.Millisecond))
 }
-func (q *RecQueue) NumRequeues(item interface{}) int { return 0 }
-func (q *RecQueue) Reset()                          { q.Pending, q.Ops = nil, nil }
+func (q *RecQueue) NumRequeues(item interface{}) int { return q.Requeues[item] }
+func (q *RecQueue) Reset()                           { q.Pending, q.Ops = nil, nil }
